@@ -149,6 +149,12 @@ b("gen-option-arg-convert-inline", G,
 b("gen-slice-arg-ufcs-into", G,
   "                                if into_str {\n                                    quote!(unsafe { #name.into_str() },)\n                                } else {\n                                    quote!(#name.into(),)\n                                },",
   "                                if into_str {\n                                    quote!(unsafe { #name.into_str() },)\n                                } else {\n                                    quote!(::core::convert::Into::into(#name),)\n                                },", ["C01", "C02"])
+GN = "cglue-gen/src/generics.rs"
+b("gen-hashset-any-instead-of-contains", GN,
+  "                if applied_lifetimes.contains(&lt.ident) {\n                    continue;\n                }",
+  "                if applied_lifetimes.iter().any(|l| **l == lt.ident) {\n                    continue;\n                }", ["C04"])
+b("gen-groups-sort-unstable", "cglue-gen/src/trait_groups.rs",
+  "        mandatory_vtbl.sort();", "        mandatory_vtbl.sort_unstable();", ["C04", "C08"])
 BG = "cglue-bindgen/src/codegen/c.rs"
 b("bindgen-contexts-hashset-then-sorted-vec", BG,
   "    let mut contexts = BTreeSet::new();\n",
